@@ -190,8 +190,9 @@ func c07ArityScenarios(c *core.Check) {
 				}
 			}
 		})
-		if len(sites) == 0 || len(lens)+len(names) == 0 {
-			// no positional read, or a caller that distinguishes neither names nor counts (resolveVar relies on HasVar: rule R3)
+		if len(sites) == 0 || len(names) == 0 {
+			// no positional read, or a caller that does not look at the function's name (resolveVar discards it and relies on
+			// HasVar for its first argument: rule R3)
 			continue
 		}
 		nFns++
